@@ -58,6 +58,10 @@ M = [
   "        <Size>m_data.m_size</Size>", "        <Size>m_data.m_capacity</Size>"),
  ("M26-std17-only-growth", ["C17"], "growth policy differs when concepts are available", HDR,
   "        const size_ty new_capacity = 2 * current_capacity;", "#ifdef GCH_LIB_CONCEPTS\n        const size_ty new_capacity = 2 * current_capacity + 1;\n#else\n        const size_ty new_capacity = 2 * current_capacity;\n#endif"),
+ ("M27-iterator-minus", ["C01"], "small_vector_iterator::operator-(n) adds", HDR,
+  "      return small_vector_iterator (m_ptr - n);", "      return small_vector_iterator (m_ptr + n);"),
+ ("M28-iterator-postdec", ["C01"], "small_vector_iterator::operator--(int) returns the decremented iterator", HDR,
+  "      return small_vector_iterator (m_ptr--);", "      return small_vector_iterator (--m_ptr);"),
  # negative controls: behaviour-preserving edits, every check must stay silent
  ("N01-growth-1.5", [], "NEGATIVE CONTROL: growth factor 1.5 (allowed by C14)", HDR,
   "        const size_ty new_capacity = 2 * current_capacity;", "        const size_ty new_capacity = current_capacity + (current_capacity / 2);"),
